@@ -144,3 +144,24 @@ func TestStore_SecondaryLoadingDemote(t *testing.T) {
 	require.True(t, ok)
 	require.Equal(t, key+1000, v)
 }
+
+func TestStore_SecondarySetError(t *testing.T) {
+	secondary := NewSimpleMapSecondary[int, int]()
+	secondary.ErrMode = true
+	store := newSecondaryTestStore(secondary, 10)
+	defer store.Close()
+
+	for i := 0; i < 100; i++ {
+		require.True(t, store.Set(i, i, 1, 0))
+	}
+	store.Wait()
+
+	// evicted entries should be removed from memory even if secondary cache set failed
+	deadline := time.Now().Add(secondaryTestDeadline)
+	for store.Len() > 10 && time.Now().Before(deadline) {
+		time.Sleep(time.Millisecond)
+	}
+	require.LessOrEqual(t, store.Len(), 10)
+	require.Equal(t, store.Len(), store.EstimatedSize())
+	require.Equal(t, uint64(90), secondary.ErrCounter.Load())
+}
